@@ -60,6 +60,10 @@ static int pfx_probe_throw(struct uprobe *uprobe, struct upipe *upipe, int event
         if (event == UPROBE_READY) { t->ready = true; t->ready_seq = e->seq; }
         if (event == UPROBE_DEAD) { t->dead_count++; if (!t->dead) { t->dead = true; t->dead_seq = e->seq; } }
     }
+    if (event == UPROBE_NEED_OUTPUT && pfx->need_output_hook != NULL && upipe != NULL && !t->dead) {
+        int r = pfx->need_output_hook(pfx, p->id, upipe, pfx->need_output_opaque);
+        if (r != UBASE_ERR_UNHANDLED) return r;
+    }
     return uprobe_throw_next(uprobe, upipe, event, args);
 }
 
